@@ -60,11 +60,15 @@ static int add_integer(yaml_document_t *document, int value)
  */
 static int add_double(yaml_document_t *document, double value, int precision)
 {
-    char buf[3 * sizeof(double) + 10];
+    char buf[MAX(precision, 1) + 3 * sizeof(double) + 10];
     int tag;
 
     assert(precision >= 1);
-    (void)sprintf(buf, "%.*e", precision - 1, value);
+    if (precision == VNACAL_MAX_PRECISION) {
+	(void)snprintf(buf, sizeof(buf), "%a", value);
+    } else {
+	(void)snprintf(buf, sizeof(buf), "%.*e", precision - 1, value);
+    }
     if ((tag = yaml_document_add_scalar(document, NULL,
 		    (yaml_char_t *)buf, strlen(buf),
 		    YAML_ANY_SCALAR_STYLE)) == 0) {
@@ -84,14 +88,14 @@ static int add_complex(yaml_document_t *document, double complex value,
 {
     double real = creal(value);
     double imag = cimag(value);
-    char buf[3 * sizeof(double complex) + 20];
+    char buf[2 * MAX(precision, 1) + 3 * sizeof(double complex) + 20];
     int tag;
 
     assert(precision >= 1);
     if (precision == VNACAL_MAX_PRECISION) {
-	(void)sprintf(buf, "%+a %+aj", real, imag);
+	(void)snprintf(buf, sizeof(buf), "%+a %+aj", real, imag);
     } else {
-	(void)sprintf(buf, "%+.*e %+.*ej",
+	(void)snprintf(buf, sizeof(buf), "%+.*e %+.*ej",
 		precision - 1, real,
 		precision - 1, imag);
     }
